@@ -311,6 +311,9 @@ func aosToSwagger(a obj) obj {
 	}
 	if ext, ok := a["ext"].(obj); ok {
 		for k, v := range ext {
+			if v == "NULL" { // JSON null: the key is there, the value is not
+				v = nil
+			}
 			op["x-"+k] = v
 		}
 	}
